@@ -92,7 +92,8 @@ class Recorder:
         # the caller's array comes in the dtypes callers really use: what
         # measure_syndrome returns (uint8), arrays reloaded from JSON or built
         # with integer matrices (int64), np.uint as in the repository's tests
-        dt = SYNDROME_DTYPES[len(self.events) % len(SYNDROME_DTYPES)]
+        self.n_decodes = getattr(self, 'n_decodes', 0) + 1
+        dt = SYNDROME_DTYPES[(self.n_decodes + self.n_decodes // len(SYNDROME_DTYPES)) % len(SYNDROME_DTYPES)]
         syn = np.array(syndrome, copy=True) if dt is None else np.array(syndrome, dtype=dt)
         before = syn.copy()
         tb = tables(self.em, self.code, self.cfg['p'])
